@@ -143,6 +143,31 @@ Proof.
   rewrite forallb_forall in F, G. now rewrite (F x Hx), (G x Hx).
 Qed.
 
+(* ---------- vector-valued expressions ---------- *)
+Lemma map_zipw {A B} (f : A -> B) (g : A -> A -> A) (h : B -> B -> B) l m :
+  (forall x y, f (g x y) = h (f x) (f y)) -> map f (zipw g l m) = zipw h (map f l) (map f m).
+Proof.
+  intros H. revert m. induction l as [|x l IH]; intros [|y m]; simpl; try reflexivity.
+  now rewrite H, IH.
+Qed.
+
+Lemma map_repeat_ {A B} (f : A -> B) x n : map f (repeat_ x n) = repeat_ (f x) n.
+Proof. induction n; simpl; congruence. Qed.
+
+(* the element expressions evaluate to the vector value, entry by entry *)
+Lemma velems_eval p v : map (eval p) (velems v) = veval p v.
+Proof.
+  induction v; simpl.
+  - reflexivity.
+  - apply map_repeat_.
+  - rewrite map_map, <- IHv, map_map. reflexivity.
+  - rewrite map_map, <- IHv, map_map. reflexivity.
+  - rewrite <- IHv1, <- IHv2. apply map_zipw. reflexivity.
+Qed.
+
+Lemma velems_length p v : length (veval p v) = length (velems v).
+Proof. now rewrite <- velems_eval, map_length. Qed.
+
 (* ---------- one column ---------- *)
 Lemma spec_default_ok a : fst (default a) = spec_default a.
 Proof. destruct a; reflexivity. Qed.
@@ -152,7 +177,7 @@ Lemma column_spec p v a :
   exists col, column v a = Some col /\
     forall k, (k < vsize v)%nat -> cell_val false p (nth k col (CLit NaN)) = spec_entry p v a k.
 Proof.
-  unfold decl_wf, column, eff_decl, spec_entry. destruct (vdecl v a) as [|l|e|es] eqn:D; intros W.
+  unfold decl_wf, column, eff_decl, spec_entry. destruct (vdecl v a) as [|l|e|es|v0|v0 k] eqn:D; intros W.
   - destruct (ast_default a) as [l|] eqn:AD.
     + destruct a; try discriminate AD. injection AD as <-.
       eexists. split; [reflexivity|]. intros k Hk. rewrite nth_repeat_ by exact Hk.
@@ -167,6 +192,17 @@ Proof.
     destruct (nth_error es k) as [el|] eqn:N.
     + rewrite (nth_indep _ _ (elem_cell el)) by (now rewrite map_length).
       rewrite map_nth. rewrite (nth_error_nth _ _ _ N). destruct el; reflexivity.
+    + apply nth_error_None in N. lia.
+  - rewrite W. eexists. split; [reflexivity|]. intros k Hk.
+    apply Nat.eqb_eq in W. rewrite <- W in Hk.
+    rewrite <- velems_eval, nth_error_map.
+    destruct (nth_error (velems v0) k) as [e|] eqn:N.
+    + rewrite (nth_indep _ _ (CExp e)) by (now rewrite map_length).
+      rewrite map_nth, (nth_error_nth _ _ _ N). reflexivity.
+    + apply nth_error_None in N. lia.
+  - apply Nat.ltb_lt in W. rewrite <- velems_eval, nth_error_map.
+    destruct (nth_error (velems v0) k) as [e|] eqn:N.
+    + eexists. split; [reflexivity|]. intros j Hj. now rewrite nth_repeat_ by exact Hj.
     + apply nth_error_None in N. lia.
 Qed.
 
@@ -248,3 +284,82 @@ Qed.
 Lemma attr_tag_literal v a l :
   vdecl v a = DLit l -> attr_tag v a = lit_tag (coerce (vt v) l).
 Proof. unfold attr_tag, eff_decl. now intros ->. Qed.
+
+(* ---------- substitution (_substitute_metadata) ---------- *)
+Lemma subst_eval sg e p : eval p (subst sg e) = eval (map (eval p) sg) e.
+Proof.
+  induction e; simpl; try congruence.
+  rewrite <- (map_nth (eval p) sg (Cst 0) i). reflexivity.
+Qed.
+
+Lemma vsubst_veval sg v p : veval p (vsubst sg v) = veval (map (eval p) sg) v.
+Proof.
+  induction v; simpl; try congruence.
+  - rewrite map_map. apply map_ext. intros e. apply subst_eval.
+  - now rewrite subst_eval.
+Qed.
+
+Lemma is_int_trunc q :
+  is_int q = true -> qZ (Z.quot (Qnum (this q)) (Zpos (Qden (this q)))) = q.
+Proof.
+  unfold is_int. intros H. apply Pos.eqb_eq in H. destruct q as [[n d] c]. simpl in *. subst d.
+  rewrite Z.quot_1_r. apply Qc_is_canon. change (Qred (inject_Z n) == n # 1). apply Qred_correct.
+Qed.
+
+Lemma spec_entry_subst p sg v a k :
+  int_ok sg v a = true ->
+  spec_entry p (subst_var sg v) a k = spec_entry (map (eval p) sg) v a k.
+Proof.
+  unfold spec_entry, int_ok. simpl. destruct (vdecl v a) as [|l|e|es|w|w j] eqn:D; simpl; intros H;
+    try reflexivity.
+  - destruct (pfree e) eqn:PF; simpl.
+    + now rewrite !(pfree_eval e _ PF).
+    + destruct (pfree (subst sg e)) eqn:PF'; simpl in *.
+      * destruct (vt v); simpl.
+        -- now rewrite <- subst_eval, (pfree_eval _ p PF').
+        -- rewrite (is_int_trunc _ H). now rewrite <- subst_eval, (pfree_eval _ p PF').
+        -- now rewrite subst_eval.
+      * now rewrite subst_eval.
+  - rewrite nth_error_map. destruct (nth_error es k) as [[l|e]|]; simpl; try reflexivity.
+    now rewrite subst_eval.
+  - now rewrite vsubst_veval.
+  - now rewrite vsubst_veval.
+Qed.
+
+Lemma spec_rows_subst p sg v :
+  forallb (int_ok sg v) attr_order = true ->
+  spec_rows p (subst_var sg v) = spec_rows (map (eval p) sg) v.
+Proof.
+  unfold spec_rows, attr_order. simpl. intros H.
+  repeat (apply andb_prop in H; let H1 := fresh "I" in destruct H as [H1 H]).
+  apply map_ext. intros k. now rewrite !spec_entry_subst.
+Qed.
+
+Lemma spec_subst p sg M :
+  subst_ok sg M = true ->
+  spec_metadata p (apply_subst sg M) = spec_metadata (map (eval p) sg) M.
+Proof.
+  unfold spec_metadata, apply_subst, subst_ok. intros H. rewrite map_map.
+  apply map_ext_in. intros vs Hvs. rewrite map_map. f_equal. apply map_ext_in. intros v Hv.
+  apply spec_rows_subst. rewrite forallb_forall in H. specialize (H vs Hvs).
+  rewrite forallb_forall in H. exact (H v Hv).
+Qed.
+
+Lemma spec_run steps : forall M p,
+  steps_ok steps M = true ->
+  spec_metadata p (run steps M) = spec_metadata (env_back steps p) M.
+Proof.
+  induction steps as [|sg r IH]; intros M p H; simpl in *; [reflexivity|].
+  apply andb_prop in H. destruct H as [H1 H2].
+  rewrite (IH _ _ H2). now apply spec_subst.
+Qed.
+
+(* C13_values after any sequence of parameter-eliminating simplify steps *)
+Lemma metadata_steps rb steps M p :
+  steps_ok steps M = true ->
+  model_wf (run steps M) = true -> safe_ok p (run steps M) = true ->
+  (rb = true -> affine_ok (run steps M) = true) ->
+  metadata rb (run steps M) p = Some (spec_metadata (env_back steps p) M).
+Proof.
+  intros S W F A. rewrite (metadata_spec rb _ p W F A). now rewrite spec_run.
+Qed.
